@@ -1,4 +1,5 @@
 open BinNums
+open BinPosDef
 open Datatypes
 
 module Pos =
@@ -49,6 +50,80 @@ module Pos =
        | Coq_xI q -> Coq_xI (succ q)
        | Coq_xO q -> Coq_xO (succ q)
        | Coq_xH -> Coq_xI Coq_xH)
+
+  (** val pred_double : positive -> positive **)
+
+  let rec pred_double = function
+  | Coq_xI p -> Coq_xI (Coq_xO p)
+  | Coq_xO p -> Coq_xI (pred_double p)
+  | Coq_xH -> Coq_xH
+
+  type mask = Pos.mask =
+  | IsNul
+  | IsPos of positive
+  | IsNeg
+
+  (** val succ_double_mask : mask -> mask **)
+
+  let succ_double_mask = function
+  | IsNul -> IsPos Coq_xH
+  | IsPos p -> IsPos (Coq_xI p)
+  | IsNeg -> IsNeg
+
+  (** val double_mask : mask -> mask **)
+
+  let double_mask = function
+  | IsPos p -> IsPos (Coq_xO p)
+  | x0 -> x0
+
+  (** val double_pred_mask : positive -> mask **)
+
+  let double_pred_mask = function
+  | Coq_xI p -> IsPos (Coq_xO (Coq_xO p))
+  | Coq_xO p -> IsPos (Coq_xO (pred_double p))
+  | Coq_xH -> IsNul
+
+  (** val sub_mask : positive -> positive -> mask **)
+
+  let rec sub_mask x y =
+    match x with
+    | Coq_xI p ->
+      (match y with
+       | Coq_xI q -> double_mask (sub_mask p q)
+       | Coq_xO q -> succ_double_mask (sub_mask p q)
+       | Coq_xH -> IsPos (Coq_xO p))
+    | Coq_xO p ->
+      (match y with
+       | Coq_xI q -> succ_double_mask (sub_mask_carry p q)
+       | Coq_xO q -> double_mask (sub_mask p q)
+       | Coq_xH -> IsPos (pred_double p))
+    | Coq_xH -> (match y with
+                 | Coq_xH -> IsNul
+                 | _ -> IsNeg)
+
+  (** val sub_mask_carry : positive -> positive -> mask **)
+
+  and sub_mask_carry x y =
+    match x with
+    | Coq_xI p ->
+      (match y with
+       | Coq_xI q -> succ_double_mask (sub_mask_carry p q)
+       | Coq_xO q -> double_mask (sub_mask p q)
+       | Coq_xH -> IsPos (pred_double p))
+    | Coq_xO p ->
+      (match y with
+       | Coq_xI q -> double_mask (sub_mask_carry p q)
+       | Coq_xO q -> succ_double_mask (sub_mask_carry p q)
+       | Coq_xH -> double_pred_mask p)
+    | Coq_xH -> IsNeg
+
+  (** val mul : positive -> positive -> positive **)
+
+  let rec mul x y =
+    match x with
+    | Coq_xI p -> add y (Coq_xO (mul p y))
+    | Coq_xO p -> Coq_xO (mul p y)
+    | Coq_xH -> y
 
   (** val compare_cont : comparison -> positive -> positive -> comparison **)
 
